@@ -6,6 +6,7 @@ def regenerate(ROOT, BUILD, REPO, GOENV, sh):
     hd = os.path.join(ROOT, "harness")
     rc, tree = sh("git -C %s rev-parse HEAD; git -C %s status --porcelain; git -C %s diff" % (REPO, REPO, REPO))
     h = hashlib.sha256(tree.encode())
+    h.update(GOENV.get("VERIF_LINKED_RANDOM", "").encode())
     for p in sorted(glob.glob(os.path.join(hd, "corpus", "*.go")) + glob.glob(os.path.join(hd, "cmd", "schemagen", "*.go"))):
         h.update(open(p, "rb").read())
     stamp = os.path.join(BUILD, "gen.stamp")
